@@ -132,11 +132,15 @@ class CodeData(DataclassHideDefault):
         Iterates through all the code data which are included,
         by processing the arguments recursively.
         """
-        for block in self.blocks:
-            for instruction in block:
-                arg = instruction.arg
-                if isinstance(arg, Constant) and isinstance(arg.constant, CodeData):
-                    yield arg.constant
+        from ._blocks import blocks_to_constants
+
+        # Go through the constants table, instead of the instructions, so that each
+        # nested code is returned once, even if it loaded twice or never.
+        for constant in blocks_to_constants(
+            self.blocks, self._additional_args, self.type
+        ):
+            if isinstance(constant, CodeData):
+                yield constant
 
     def all_code_data(self) -> Iterator[CodeData]:
         """
